@@ -9,6 +9,7 @@ package main
 //	{"case":"verify","k":8,"rounds":50,"servers":4}
 //	{"case":"dns","k":8,"rounds":300,"size":2,"hosts":4}
 //	{"case":"transport","k":8,"rounds":200}
+//	{"case":"transport1","k":16,"rounds":3000}
 
 import (
 	"bytes"
@@ -18,6 +19,7 @@ import (
 	"fmt"
 	"math/rand"
 	"net"
+	"net/http"
 	"strings"
 	"sync"
 	"time"
@@ -56,6 +58,8 @@ func stressCase(raw json.RawMessage) hx.Result {
 		return stressDNS(r)
 	case "transport":
 		return stressTransport(r)
+	case "transport1":
+		return stressTransportFirstUse(r)
 	}
 	panic("unknown stress case " + r.Case)
 }
@@ -459,4 +463,42 @@ func stressTransport(r stressRec) hx.Result {
 		return *failure
 	}
 	return hx.Result{OK: true, NT: fmt.Sprintf("transport k=%d", r.K)}
+}
+
+// stressTransportFirstUse: for many fresh TLS names, k goroutines released by one barrier ask the shared
+// transport cache for the transport of the SAME, not yet cached, name.  In every sequential order of these
+// calls the first creates the transport and all others are handed that very object, so all k results and the
+// transport found in the map afterwards must be identical (pointer comparison; no reaper runs in this case).
+func stressTransportFirstUse(r stressRec) hx.Result {
+	tripper := fclient.VerifC19NewTripper(true, nil, false)
+	for round := 0; round < r.Rounds; round++ {
+		name := fmt.Sprintf("h%d-%d.c19.test:8448", r.Seed, round)
+		got := make([]http.RoundTripper, r.K)
+		start := make(chan struct{})
+		var wg sync.WaitGroup
+		for g := 0; g < r.K; g++ {
+			wg.Add(1)
+			go func(g int) {
+				defer wg.Done()
+				<-start
+				got[g] = tripper.GetTransport(name)
+			}(g)
+		}
+		close(start)
+		wg.Wait()
+		cached := tripper.GetTransport(name)
+		distinct := map[http.RoundTripper]bool{cached: true}
+		for _, t := range got {
+			distinct[t] = true
+		}
+		if len(distinct) != 1 {
+			return hx.Result{OK: false, Key: "C19/stress/transport/callers-of-one-name-get-different-transports",
+				What: fmt.Sprintf("%d goroutines asked for the transport of the uncached TLS name %q at the same time and were handed %d different transports (%d of them not the cached one); every sequential order hands all of them the one cached transport", r.K, name, len(distinct), len(distinct)-1)}
+		}
+		if d := fclient.VerifC19Describe(name, cached); !d.Inited || !d.HasUsed || d.ServerName != name {
+			return hx.Result{OK: false, Key: "C19/stress/transport/half-initialised",
+				What: fmt.Sprintf("transport of %q: initialised=%v lastUsed stored=%v TLS ServerName=%q", name, d.Inited, d.HasUsed, d.ServerName)}
+		}
+	}
+	return hx.Result{OK: true, NT: fmt.Sprintf("transport first use k=%d", r.K)}
 }
